@@ -24,6 +24,27 @@ BUILT = {
    text="Every quiescent point of every simulated session (receiver parked in Read at byte N) is a checked crash point: each listed destination path must be old-complete, new-complete or legitimately absent. On top, connection cuts of either direction and freezes of the receiving party are injected at sampled byte offsets (6 per scenario quick, 30 thorough); after an error return no temporary file may remain.",
    note="Crash points are wire-token boundaries; crashes between two syscalls of one goroutine and power-loss durability are not simulated (no storage seam). One known finding (leftover temp file when the generator's write fails first) is reported as KNOWN-FINDING.",
    tech="deterministic simulation with fault injection: step invariant + cut/freeze faults at byte offsets"),
+ "C05": dict(cat="exploration", ref="DESIGN.md §6 C05",
+   text="A hostile reference sender feeds the real receiving client and the real writable daemon module file lists from an escape-vector grammar (dot-dot, absolute names, pre-existing symlinks, symlinks sent in the same list, sub-directory arguments) x entry types x options; a ring of canary objects around the destination must stay identical during and after every session, and no request may carry a canary's block signature.",
+   note="Runs as root so chown/mknod are really attempted. Trusted: refproto sender, fstree snapshots.",
+   tech="deterministic simulation with a hostile reference peer; canary-ring invariant at scheduler steps"),
+ "C06": dict(cat="exploration", ref="DESIGN.md §6 C06",
+   text="A hostile reference receiver requests paths from a traversal grammar from the real daemon (directory- and fs.FS-backed modules with prefix-related names); the raw server byte stream is scanned for canary content, checksums and names, and every decoded list entry must be an object inside the module.",
+   note="fs.FS modules are given an FS confined to the directory (os.Root.FS); with os.DirFS outside objects reached through symlinks would be part of the FS by definition.",
+   tech="deterministic simulation with a hostile reference peer; wire scan for canary secrets"),
+ "C07": dict(cat="exploration", ref="DESIGN.md §6 C07",
+   text="Real pushing client and hostile reference sender attack read-only modules (directory- and fs.FS-backed, next to writable modules with prefix-related names) through Serve(simulated TCP) and HandleDaemonConn with random receive-mode flag sets and sub-paths; module snapshots are compared at scheduler steps and at the end, and the client must see an error.",
+   note="Trusted: refproto, fstree snapshots.",
+   tech="deterministic simulation; snapshot invariant on the read-only module; hostile reference peer"),
+ "C08": dict(cat="fault_enumeration", ref="DESIGN.md §6 C08",
+   text="Single-field mutations of valid sessions over every named protocol field and value class, parser-vocabulary argument lines, connection cuts at byte offsets and noise are thrown at the real daemon behind its real accept loop (a panic or os.Exit really kills the worker and is observed by the driver) and at the real client; after every hostile session a canonical request must be served correctly.",
+   note="Sampling over (field, occurrence, class); stalled peers and multi-gigabyte declarations are excluded as the property states.",
+   tech="deterministic simulation with a byzantine reference peer (structure-aware mutation, cuts, noise) and process-level crash isolation"),
+ "C19": dict(cat="exploration", ref="DESIGN.md §6 C19",
+   text="The real accept loop serves simulated connections carrying chosen peer addresses; an independent first-match model (net/netip) decides what each (rule list, address) pair must yield: OK and a complete session, or an @ERROR line followed by EOF. quick samples, thorough enumerates all 30784 rule lists of length 0..3 over the 31-rule pool against all 26 addresses.",
+   note="Pure decision function: input/configuration-quantified; the simulated network is needed for arbitrary peer addresses.",
+   tech="deterministic simulation (simulated listener with arbitrary peer addresses); bounded enumeration of the rule-pool product in the thorough tier"),
+
  "C09": dict(cat="exploration", ref="DESIGN.md §6 C09",
    text="Seeded search over source/destination tree pairs with extraneous entries in every sort position, exclude rules, pull/push/local arrangements and a simulated sender-disk error raising the I/O-error flag; reference-model oracle on the exact entry set after the run.",
    note="Trusted: model of --delete and exclude protection (verif/sim/model, sem.go).",
